@@ -28,6 +28,7 @@ type zkCase struct {
 	proof   []int                          // indices of proof arguments (single integers, points, or lists)
 	parts   int                            // wire arity (0 = no NonEmptyMultiBytes codec)
 	wire    func(args []string) []*big.Int // proof components in wire order
+	extreme string                         // non-empty: which coin of the model prover sits at the end of its range
 	origin  string                         // "go-prover" | "model-prover"
 	witness string
 }
@@ -60,6 +61,27 @@ func unitBelow(rng *rand.Rand, n *big.Int) *big.Int {
 			return x
 		}
 	}
+}
+
+// extremeCoin ≥ 0: the model provers' k-th coin is set to the top of its range (bound-1) instead of a random
+// value; extremeCoinLow: to the bottom (0, or 1 for unit coins). Consumed by the next model-prover case built.
+var extremeCoin = -1
+var extremeCoinLow bool
+
+func applyExtreme(coins, bounds []*big.Int, unit []bool) string {
+	k := extremeCoin
+	if k < 0 || k >= len(coins) {
+		return ""
+	}
+	if extremeCoinLow {
+		coins[k] = bi(0)
+		if unit[k] {
+			coins[k] = bi(1)
+		}
+		return fmt.Sprintf("coin-%d-lowest", k)
+	}
+	coins[k] = new(big.Int).Sub(bounds[k], bi(1))
+	return fmt.Sprintf("coin-%d-highest", k)
 }
 
 // --- Schnorr ---
@@ -201,9 +223,9 @@ func facCase(r *Run, rng *rand.Rand, tag string, prover, verifier *keygen.LocalP
 		q3 := new(big.Int).Mul(q, new(big.Int).Mul(q, q))
 		q3s := new(big.Int).Mul(q3, new(big.Int).Sqrt(N0))
 		qN := new(big.Int).Mul(q, NCap)
-		coins := []*big.Int{below(rng, q3s), below(rng, q3s), below(rng, qN), below(rng, qN),
-			below(rng, new(big.Int).Mul(qN, N0)), unitBelow(rng, new(big.Int).Mul(new(big.Int).Mul(q3, NCap), N0)),
-			below(rng, new(big.Int).Mul(q3, NCap)), below(rng, new(big.Int).Mul(q3, NCap))}
+		fb := []*big.Int{q3s, q3s, qN, qN, new(big.Int).Mul(qN, N0), new(big.Int).Mul(new(big.Int).Mul(q3, NCap), N0), new(big.Int).Mul(q3, NCap), new(big.Int).Mul(q3, NCap)}
+		coins := []*big.Int{below(rng, fb[0]), below(rng, fb[1]), below(rng, fb[2]), below(rng, fb[3]), below(rng, fb[4]), unitBelow(rng, fb[5]), below(rng, fb[6]), below(rng, fb[7])}
+		zc.extreme = applyExtreme(coins, fb, []bool{false, false, false, false, false, true, false, false})
 		res := r.model.Call("fac_prove", tag, eBytes(sess), eInt(N0), eInt(NCap), eInt(s), eInt(t), eInt(sk.P), eInt(sk.Q), eInts(coins))
 		f := strings.Fields(res)
 		if len(f) != 2 || f[0] != "ok" {
@@ -237,7 +259,9 @@ func rangeCase(r *Run, rng *rand.Rand, tag string, alice, bob *keygen.LocalParty
 			return nil
 		}
 		q3 := new(big.Int).Mul(q, new(big.Int).Mul(q, q))
-		coins := []*big.Int{below(rng, q3), unitBelow(rng, pk.N), below(rng, new(big.Int).Mul(q3, bob.NTildei)), below(rng, new(big.Int).Mul(q, bob.NTildei))}
+		rb := []*big.Int{q3, pk.N, new(big.Int).Mul(q3, bob.NTildei), new(big.Int).Mul(q, bob.NTildei)}
+		coins := []*big.Int{below(rng, rb[0]), unitBelow(rng, rb[1]), below(rng, rb[2]), below(rng, rb[3])}
+		zc.extreme = applyExtreme(coins, rb, []bool{false, true, false, false})
 		res := r.model.Call("range_prove", tag, eInt(pk.N), eInt(cA), eInt(bob.NTildei), eInt(bob.H1i), eInt(bob.H2i), eInt(m), eInt(x), eInts(coins))
 		f := strings.Fields(res)
 		if len(f) != 2 || f[0] != "ok" {
@@ -304,7 +328,9 @@ func bobCase(r *Run, rng *rand.Rand, tag string, alice, bob *keygen.LocalPartySa
 		cB, _ = pk.HomoAdd(cB, cBeta)
 		qNt := new(big.Int).Mul(q, alice.NTildei)
 		q3Nt := new(big.Int).Mul(q3, alice.NTildei)
-		coins := []*big.Int{below(rng, q3), below(rng, qNt), below(rng, qNt), below(rng, q3Nt), below(rng, q3Nt), unitBelow(rng, pk.N), below(rng, q7)}
+		bb := []*big.Int{q3, qNt, qNt, q3Nt, q3Nt, pk.N, q7}
+		coins := []*big.Int{below(rng, bb[0]), below(rng, bb[1]), below(rng, bb[2]), below(rng, bb[3]), below(rng, bb[4]), unitBelow(rng, bb[5]), below(rng, bb[6])}
+		zc.extreme = applyExtreme(coins, bb, []bool{false, false, false, false, false, true, false})
 		Xs := "nil"
 		if wc {
 			Xs = ePoint(B)
@@ -416,6 +442,39 @@ func honestCases(r *Run, rng *rand.Rand, thorough bool) []*zkCase {
 				}
 			}
 		}
+	}
+	// model-made proofs with one coin at the end of its range (first fixture pair): every such proof that the model's
+	// verifier accepts (i.e. the coins are good in the sense of the completeness theorems) must be accepted by Go's
+	if nfx >= 2 {
+		qS := curveByTag("s256").Params().N
+		wsS := witnessGrid(rng, qS)
+		tryExtreme := func(mk func() *zkCase, coinsN int) {
+			for k := 0; k < coinsN; k++ {
+				for _, low := range []bool{false, true} {
+					if low && !thorough {
+						continue
+					}
+					extremeCoin, extremeCoinLow = k, low
+					c := mk()
+					extremeCoin, extremeCoinLow = -1, false
+					if c == nil || c.extreme == "" {
+						continue
+					}
+					if v := r.model.Call(c.op, c.args...); v != "accept" {
+						r.Note("%s %s: the model's verifier answers %q (a coin outside the good set of the completeness theorem)", c.sys, c.extreme, v)
+						continue
+					}
+					c.origin = "model-prover-" + c.extreme
+					add(c)
+				}
+			}
+		}
+		tryExtreme(func() *zkCase { return rangeCase(r, rng, "s256", F(0), F(1), wsS[3%len(wsS)], true) }, 4)
+		tryExtreme(func() *zkCase {
+			return bobCase(r, rng, "s256", F(0), F(1), ss[1], wsS[1], wsS[2%len(wsS)], false, true)
+		}, 7)
+		tryExtreme(func() *zkCase { return bobCase(r, rng, "s256", F(1), F(0), ss[2], wsS[2%len(wsS)], wsS[1], true, true) }, 7)
+		tryExtreme(func() *zkCase { return facCase(r, rng, "s256", F(0), F(1), ss[1], true) }, 8)
 	}
 	return out
 }
